@@ -18,6 +18,7 @@ LEVEL_TEXT = ("The same command runs with one core and with 2-4 (thorough: up to
               "(chunk-to-worker assignment, arrival order) signatures were observed and how many chunks were held back out of order; without "
               "any out-of-order arrival the verdict is inconclusive.")
 LEVEL_TEXT += " Inputs include FASTA (two files and interleaved, header comments containing '>', '@', '+'), multi-MB block-structured files whose chunks contribute between nothing and several hundred KB to each output, and demultiplexing with an adapter named 'unknown'."
+LEVEL_TEXT += ' Inputs without reads and with fewer reads than workers, non-ASCII adapter names, and runs whose processes are confined to one CPU.'
 LEVEL_NOTE = ("Trusted base: byte comparison, Python's decompressors; the hooks only delay and record, they do not change what is sent. "
               "A finite set of schedules is observed, not every schedule.")
 VARIANTS = {"quick": ["plain"], "thorough": ["plain"]}
